@@ -285,8 +285,12 @@ unsigned long CommandExecutor::nextVarint()
 
     do {
         readByte = nextByte();
-        result |= ((unsigned long)(readByte & 0x7F)) << shift;
-        shift += 7;
+        if (shift < 8 * sizeof(result)) {
+            /* bits that do not fit into the result are dropped; shifting by
+             * the width of the type or more would be undefined */
+            result |= ((unsigned long)(readByte & 0x7F)) << shift;
+            shift += 7;
+        }
     } while (readByte & 0x80);
 
     return result;
